@@ -63,7 +63,8 @@ class Bench:
     self.store = X
     self.opts = dict(gen.FAST[name])
     if name.startswith('SDML'):
-      self.opts['balance_param'] = 2.0 ** -17
+      self.opts['balance_param'] = 2.0 ** -20
+      self.opts['prior'] = 'identity'           # (keeps the graphical-lasso input well conditioned on integer data)
     if name == 'RCA_Supervised':
       self.opts['n_chunks'] = min(6, int(sum(c // 2 for c in np.bincount(y))))
     if 'random_state' in gen.CLS[name]().get_params():
